@@ -108,7 +108,9 @@ def build(profile="verif", features=None, bins=None):
 
 def load_known():
     known, fixed = [], []
-    p = os.path.join(ROOT, "KNOWN_FINDINGS.txt")
+    # VERIF_KNOWN_FILE is a test hook for the known-findings logic itself; registered commands never set it
+    p = os.environ.get("VERIF_KNOWN_FILE") if ALT else None
+    p = p or os.path.join(ROOT, "KNOWN_FINDINGS.txt")
     if os.path.exists(p):
         for line in open(p):
             line = line.strip()
